@@ -284,6 +284,9 @@ pub struct MemIo {
     dead: bool,
     /// when set, poll_ready stays pending (a stalled client socket)
     stalled: Arc<AtomicBool>,
+    /// when set, poll_flush stays pending: frames are accepted by the sink but not "on the wire"
+    flush_stalled: Arc<AtomicBool>,
+    flush_waker: Arc<Mutex<Option<std::task::Waker>>>,
 }
 
 impl Drop for MemIo {
@@ -299,6 +302,8 @@ pub struct ClientEnd {
     pub rx: mpsc::UnboundedReceiver<Bytes>,
     pub counters: Arc<IoCounters>,
     pub stalled: Arc<AtomicBool>,
+    pub flush_stalled: Arc<AtomicBool>,
+    pub flush_waker: Arc<Mutex<Option<std::task::Waker>>>,
 }
 
 pub fn mem_pair(km_secret: Option<[u8; 32]>, fault: Option<Fault>) -> (MemIo, ClientEnd) {
@@ -306,6 +311,8 @@ pub fn mem_pair(km_secret: Option<[u8; 32]>, fault: Option<Fault>) -> (MemIo, Cl
     let (stx, crx) = mpsc::unbounded_channel();
     let counters = Arc::new(IoCounters::default());
     let stalled = Arc::new(AtomicBool::new(false));
+    let flush_stalled = Arc::new(AtomicBool::new(false));
+    let flush_waker = Arc::new(Mutex::new(None));
     (
         MemIo {
             rx: srx,
@@ -315,12 +322,16 @@ pub fn mem_pair(km_secret: Option<[u8; 32]>, fault: Option<Fault>) -> (MemIo, Cl
             counters: counters.clone(),
             dead: false,
             stalled: stalled.clone(),
+            flush_stalled: flush_stalled.clone(),
+            flush_waker: flush_waker.clone(),
         },
         ClientEnd {
             tx: Some(ctx),
             rx: crx,
             counters,
             stalled,
+            flush_stalled,
+            flush_waker,
         },
     )
 }
@@ -356,6 +367,15 @@ impl ClientEnd {
             out.push(b);
         }
         out
+    }
+    /// Stalls / resumes the server's flushes towards this client.
+    pub fn set_flush_stalled(&self, on: bool) {
+        self.flush_stalled.store(on, Ordering::SeqCst);
+        if !on {
+            if let Some(w) = self.flush_waker.lock().unwrap().take() {
+                w.wake();
+            }
+        }
     }
     /// Has the server dropped its end (connection fully torn down)?
     pub fn server_dropped(&self) -> bool {
@@ -427,7 +447,14 @@ impl Sink<Bytes> for MemIo {
             .send(item)
             .map_err(|_| n0_error::anyerr!("peer closed"))
     }
-    fn poll_flush(self: Pin<&mut Self>, _cx: &mut Context<'_>) -> Poll<Result<(), Self::Error>> {
+    fn poll_flush(self: Pin<&mut Self>, cx: &mut Context<'_>) -> Poll<Result<(), Self::Error>> {
+        if self.flush_stalled.load(Ordering::SeqCst) {
+            *self.flush_waker.lock().unwrap() = Some(cx.waker().clone());
+            // re-check after publishing the waker
+            if self.flush_stalled.load(Ordering::SeqCst) {
+                return Poll::Pending;
+            }
+        }
         let n = self.counters.flushes.fetch_add(1, Ordering::SeqCst);
         if let Some(f) = self.fault {
             if f.kind == FaultKind::FlushErr && f.at as u64 == n {
@@ -468,6 +495,9 @@ impl ExportKeyingMaterial for MemIo {
 // A relay registry with harness-side client handles
 // ---------------------------------------------------------------------------------------
 
+/// Write timeout configured on every harness connection (public `Config::write_timeout`).
+pub const HARNESS_WRITE_TIMEOUT: std::time::Duration = std::time::Duration::from_millis(1000);
+
 pub struct Relay {
     pub clients: Clients,
     pub metrics: Arc<Metrics>,
@@ -502,6 +532,7 @@ impl Relay {
         let conn_id = guard.connection_id();
         let stream = RelayedStream::new(io, self.key_cache.clone());
         let mut config = Config::new(guard, stream, version);
+        config.write_timeout = HARNESS_WRITE_TIMEOUT;
         if let Some(c) = channel_capacity {
             config.channel_capacity = c;
         }
